@@ -591,6 +591,39 @@ func runC16(c *ctx) error {
 				if yerr := yaml.Unmarshal(jb, ref); yerr == nil {
 					a := reflect.ValueOf(dst).Elem()
 					b := reflect.ValueOf(ref).Elem()
+					// ...and so do ordered-map fields (an ordered map stands in for a plain map): the entries it held
+					// plus the ones the document gives
+					for fi := 0; fi < a.NumField() && a.Kind() == reflect.Struct; fi++ {
+						fa := a.Field(fi)
+						tag := strings.Split(a.Type().Field(fi).Tag.Get("yaml"), ",")[0]
+						lenM := fa.MethodByName("Len")
+						if fa.Kind() != reflect.Pointer || fa.IsNil() || !lenM.IsValid() || tag == "" || !fa.CanInterface() {
+							continue
+						}
+						dm := doc
+						if dm == nil {
+							continue
+						}
+						want := map[string]bool{}
+						pf := reflect.ValueOf(fam.prefilled()).Elem().Field(fi)
+						if pf.Kind() == reflect.Pointer && !pf.IsNil() {
+							if r, ok := pf.Interface().(interface{ Len() int }); ok && r.Len() == 1 {
+								want["pre"] = true // the family's ordered maps are pre-populated with the single key "pre"
+							}
+						}
+						if dv, ok := dm.Get(tag); ok {
+							if inner, ok := dv.(*ordered.MapSA); ok {
+								inner.Range(func(k string, _ any) error { want[k] = true; return nil })
+							} else {
+								continue
+							}
+						}
+						c.res.OracleChecks++
+						if got := lenM.Call(nil)[0].Int(); int(got) != len(want) {
+							c.res.Fail(core.OracleFailure{What: "an ordered-map field of a pre-populated destination does not hold its old entries plus the document's",
+								Input: map[string]any{"type": fam.name, "doc": string(jb), "field": a.Type().Field(fi).Name}, Got: fmt.Sprint(got), Want: fmt.Sprint(len(want))})
+						}
+					}
 					for fi := 0; fi < a.NumField() && a.Kind() == reflect.Struct; fi++ {
 						fa, fb := a.Field(fi), b.Field(fi)
 						if fa.Kind() != reflect.Map || !fa.CanInterface() || a.Type().Field(fi).Tag.Get("yaml") == ",inline" {
